@@ -149,7 +149,11 @@ PROPS['C17'] = {
     'level': 'exploration',
     'passes': [{'variant': 'asan', 'binary': 'glyph16', 'runs': [40000, 1500000], 'deadline_s': [120, 2400], 'tag': 'slots16'},
                {'variant': 'asan', 'binary': 'glyph64', 'runs': [15000, 500000], 'deadline_s': [120, 2400], 'tag': 'slots64'},
-               {'variant': 'asan', 'binary': 'glyph', 'runs': [160, 4000], 'deadline_s': [150, 2400], 'tag': 'real'}],
+               {'variant': 'asan', 'binary': 'glyph', 'runs': [160, 4000], 'deadline_s': [150, 2400], 'tag': 'real'},
+               # exhaustive small scope: every history of 6 operations (freeze, thaw, insert/lookup/remove of
+               # four colliding keys: 14^6 = 7 529 536 histories) at 16 slots; run index = history number
+               {'variant': 'asan', 'binary': 'glyph16', 'runs': [0, 7529536], 'deadline_s': [10, 3000], 'tag': 'exhaustive-len6',
+                'tier': 2, 'extra': ['--raw-index'], 'thorough_only': True}],
     'crash_property': 'C17',
     'hang_s': 300,
     'shrink_budget': 150,
